@@ -355,6 +355,127 @@ pub fn run(ctx: &mut Ctx) {
             (a, b) => ctx.oracle_failure("settings_file_defaults", &format!("minimal settings file: read {:?}, built {:?}", a.err().map(|e| e.to_string()), b.err().map(|e| format!("{:?}", e)))),
         }
     }
+    // ---- every key means the field it names: each integer and boolean key of every section, under each spelling the
+    // deserialiser accepts for it (field name, rename, aliases - the table is regenerated from settings.rs on every run),
+    // is set in a file; the settings read from it are written back and compared with the defaults: exactly that field moved,
+    // to exactly that value. The moved fields are also put to the model's table (`c13 key <struct> <key>`). -------------------
+    {
+        use trusttunnel::settings::*;
+        let minimal = "listen_address = \"127.0.0.1:1\"\n[listen_protocols]\n[listen_protocols.http1]\n[listen_protocols.http2]\n[listen_protocols.quic]\n[icmp]\n[metrics]\n";
+        let section = |st: &str| -> Option<Vec<&'static str>> {
+            Some(match st {
+                "Settings" => vec![],
+                "Http1Settings" => vec!["listen_protocols", "http1"],
+                "Http2Settings" => vec!["listen_protocols", "http2"],
+                "QuicSettings" => vec!["listen_protocols", "quic"],
+                "IcmpSettings" => vec!["icmp"],
+                "MetricsSettings" => vec!["metrics"],
+                _ => return None,
+            })
+        };
+        fn at<'a>(v: &'a toml::Value, path: &[&str]) -> Option<&'a toml::Value> {
+            path.iter().try_fold(v, |v, k| v.get(*k))
+        }
+        fn at_mut<'a>(v: &'a mut toml::Value, path: &[&str]) -> Option<&'a mut toml::Value> {
+            path.iter().try_fold(v, |v, k| v.get_mut(*k))
+        }
+        fn leaves(prefix: &str, v: &toml::Value, out: &mut Vec<(String, String)>) {
+            match v {
+                toml::Value::Table(t) => {
+                    for (k, x) in t {
+                        leaves(&if prefix.is_empty() { k.clone() } else { format!("{}.{}", prefix, k) }, x, out);
+                    }
+                }
+                x => out.push((prefix.to_string(), x.to_string())),
+            }
+        }
+        let read_back = |text: &str| -> Result<toml::Value, String> {
+            let st = toml::from_str::<Settings>(text).map_err(|e| e.to_string())?;
+            let back = toml::to_string(&st).map_err(|e| e.to_string())?;
+            back.parse::<toml::Value>().map_err(|e| e.to_string())
+        };
+        match (read_back(minimal), minimal.parse::<toml::Value>()) {
+            (Ok(defaults), Ok(base)) => {
+                let mut dl = vec![];
+                leaves("", &defaults, &mut dl);
+                for (st, field, keys) in crate::gen_settings_keys::SETTINGS_KEYS {
+                    let Some(path) = section(st) else {
+                        ctx.stat("settings_keys_in_sections_not_tried");
+                        continue;
+                    };
+                    // (the settings are written back under the first key: the field's name or its serde rename)
+                    let written = keys[0];
+                    let mut fpath = path.clone();
+                    fpath.push(written);
+                    let new = match at(&defaults, &fpath) {
+                        Some(toml::Value::Integer(i)) => toml::Value::Integer(*i + 1),
+                        Some(toml::Value::Boolean(b)) => toml::Value::Boolean(!*b),
+                        _ => {
+                            ctx.stat("settings_keys_not_integer_or_boolean");
+                            continue;
+                        }
+                    };
+                    for key in keys.iter() {
+                        let mut file = base.clone();
+                        match at_mut(&mut file, &path) {
+                            Some(toml::Value::Table(t)) => {
+                                t.insert(key.to_string(), new.clone());
+                            }
+                            _ => continue,
+                        }
+                        let text = toml::to_string(&file).unwrap_or_default();
+                        let q = format!("c13 key {} {}", st, key);
+                        match read_back(&text) {
+                            Err(e) => {
+                                // a value the validation refuses: nothing was read
+                                ctx.stat("settings_keys_value_refused");
+                                ctx.notes.push(format!("settings key {} = {} refused: {}", key, new, e.lines().next().unwrap_or("")));
+                            }
+                            Ok(got) => {
+                                let mut gl = vec![];
+                                leaves("", &got, &mut gl);
+                                let sec = path.join(".");
+                                let moved: Vec<(String, String)> = gl.iter().filter(|x| !dl.contains(x)).cloned().collect();
+                                let gone: Vec<&(String, String)> = dl.iter().filter(|x| !gl.iter().any(|y| y.0 == x.0)).collect();
+                                // what the file says, read off the key itself (not off the table): the setting of this section that has the
+                                // key for its name, or - for a legacy short name - for the tail of its name
+                                let named: Vec<String> = dl
+                                    .iter()
+                                    .filter_map(|(l, _)| if sec.is_empty() { (!l.contains('.')).then(|| l.clone()) } else { l.strip_prefix(&format!("{}.", sec)).map(String::from) })
+                                    .filter(|l| !l.contains('.') && (l == key || l.ends_with(&format!("_{}", key))))
+                                    .collect();
+                                if named.len() != 1 {
+                                    ctx.stat("settings_keys_naming_no_single_setting");
+                                    ctx.notes.push(format!("settings key {} of [{}] names {:?}: not judged", key, sec, named));
+                                    continue;
+                                }
+                                let want_leaf = if sec.is_empty() { named[0].clone() } else { format!("{}.{}", sec, named[0]) };
+                                if moved != vec![(want_leaf.clone(), new.to_string())] || !gone.is_empty() {
+                                    ctx.oracle_failure(
+                                        "settings_key_meaning",
+                                        &format!("a settings file with {} = {} in [{}] (defaults otherwise) was read as {:?}{}; the file says {} = {}", key, new, sec, moved, if gone.is_empty() { String::new() } else { format!(" without {:?}", gone) }, want_leaf, new),
+                                    );
+                                }
+                                // the fields of this section that moved, for the model's table
+                                let in_sec: Vec<String> = moved
+                                    .iter()
+                                    .filter_map(|(l, _)| if sec.is_empty() { (!l.contains('.')).then(|| l.clone()) } else { l.strip_prefix(&format!("{}.", sec)).map(String::from) })
+                                    .collect();
+                                // (the model's table speaks of fields: a leaf is named by the first key of its field)
+                                let in_sec: Vec<String> = in_sec
+                                    .iter()
+                                    .map(|l| crate::gen_settings_keys::SETTINGS_KEYS.iter().find(|(s2, _, k2)| s2 == st && k2[0] == l.as_str()).map(|(_, f, _)| f.to_string()).unwrap_or(format!("?{}", l)))
+                                    .collect();
+                                ctx.emit(&q, &if in_sec.is_empty() { "-".to_string() } else { in_sec.join(",") });
+                                ctx.stat(if *key == written { "settings_keys_by_name" } else { "settings_keys_by_alias" });
+                            }
+                        }
+                    }
+                }
+            }
+            (a, b) => ctx.notes.push(format!("settings keys not tried: {:?} / {:?}", a.err(), b.err().map(|e| e.to_string()))),
+        }
+    }
     // TLS hosts: none, duplicate, unloadable
     let garbage = write_file(&dir, "garbage.pem", "not a pem");
     let mk = |name: &str, pem: &str| TlsHostInfo { hostname: name.into(), cert_chain_path: pem.into(), private_key_path: pem.into(), allowed_sni: vec![] };
